@@ -1009,6 +1009,7 @@ theorem step_s5_nat (orc : Oracle) (m : PM) (f : Frame) (rest : List Frame) (tok
 
 
 @[simp] theorem eraseCfg_setLine (c : Cfg) (n : Nat) : eraseCfg (c.setLine n) = eraseCfg c := by cases c; rfl
+@[simp] theorem eraseCfg_afterSection (c s : Cfg) : eraseCfg (c.afterSection s) = eraseCfg c := by cases c; rfl
 
 theorem step_s0_nat (orc : Oracle) (m : PM) (f : Frame) (rest : List Frame) (tok : Tok) :
     erasePM (step_s0 orc m f rest tok) = erasePM (step_s0 orc (erasePM m) (eraseFrame f) (rest.map eraseFrame) tok) := by
@@ -1026,18 +1027,18 @@ theorem step_s0_nat (orc : Oracle) (m : PM) (f : Frame) (rest : List Frame) (tok
       split
       · nat_simp
       · simp only [runValid_spec]
-        have hp2 : eraseFrame { writeBack (eraseFrame p) (eraseFrame f') with cfg := (writeBack (eraseFrame p) (eraseFrame f')).cfg.setLine (eraseFrame f').cfg.line } =
-            eraseFrame { writeBack p f' with cfg := (writeBack p f').cfg.setLine f'.cfg.line } := by
+        have hp2 : eraseFrame { writeBack (eraseFrame p) (eraseFrame f') with cfg := (writeBack (eraseFrame p) (eraseFrame f')).cfg.afterSection (eraseFrame f').cfg } =
+            eraseFrame { writeBack p f' with cfg := (writeBack p f').cfg.afterSection f'.cfg } := by
           rw [← writeBack_erase]
           simp [eraseFrame]
         have hk : (((erasePM m).addDiags (eraseFrame f) ds).addCalls ev).k = ((m.addDiags f ds).addCalls ev).k := by
           simp [PM.k]
-        have hvv := validVerdict_erase orc ((m.addDiags f ds).addCalls ev).k { writeBack p f' with cfg := (writeBack p f').cfg.setLine f'.cfg.line }
-        have hvv' := validVerdict_erase orc ((m.addDiags f ds).addCalls ev).k { writeBack (eraseFrame p) (eraseFrame f') with cfg := (writeBack (eraseFrame p) (eraseFrame f')).cfg.setLine (eraseFrame f').cfg.line }
+        have hvv := validVerdict_erase orc ((m.addDiags f ds).addCalls ev).k { writeBack p f' with cfg := (writeBack p f').cfg.afterSection f'.cfg }
+        have hvv' := validVerdict_erase orc ((m.addDiags f ds).addCalls ev).k { writeBack (eraseFrame p) (eraseFrame f') with cfg := (writeBack (eraseFrame p) (eraseFrame f')).cfg.afterSection (eraseFrame f').cfg }
         rw [hp2, hvv] at hvv'
         rw [hk, hvv']
-        generalize hP : ({ writeBack p f' with cfg := (writeBack p f').cfg.setLine f'.cfg.line } : Frame) = p2 at hp2 ⊢
-        generalize hP' : ({ writeBack (eraseFrame p) (eraseFrame f') with cfg := (writeBack (eraseFrame p) (eraseFrame f')).cfg.setLine (eraseFrame f').cfg.line } : Frame) = p2' at hp2 ⊢
+        generalize hP : ({ writeBack p f' with cfg := (writeBack p f').cfg.afterSection f'.cfg } : Frame) = p2 at hp2 ⊢
+        generalize hP' : ({ writeBack (eraseFrame p) (eraseFrame f') with cfg := (writeBack (eraseFrame p) (eraseFrame f')).cfg.afterSection (eraseFrame f').cfg } : Frame) = p2' at hp2 ⊢
         cases validVerdict orc ((m.addDiags f ds).addCalls ev).k p2' with
         | none =>
           simp only [Option.map_none, reject_erase, vetoed_erase, addCalls_erase, addDiags_erase, erasePM_idem, eraseFrame_idem, hp2, List.map_map, eraseFrame_comp]
